@@ -445,3 +445,81 @@ Lemma indexes_by_arrival_depends_on_order :
 Proof.
   exists [Some "primary"; Some "mirror"], [0; 1], [1; 0]. split; [apply perm_swap|]. vm_compute. discriminate.
 Qed.
+
+(* ====================================================================== *)
+(* 5. round 2: arbitrary other steps, SetRepositories last                  *)
+(* ====================================================================== *)
+Lemma exec_app (S : Type) (sem : string -> S -> res S) a : forall b s,
+  exec S sem (a ++ b) s = rbind (exec S sem a s) (fun x => exec S sem b x).
+Proof.
+  induction a as [|n a IH]; intros b s; [reflexivity|]. simpl app. rewrite !exec_cons.
+  destruct (sem n s) as [x| | |]; simpl; [apply IH | reflexivity | reflexivity | reflexivity].
+Qed.
+
+Lemma filter_last_split {A} (f : A -> bool) : forall l m x, filter f l = m ++ [x] ->
+  exists pre post, l = pre ++ x :: post /\ filter f post = [].
+Proof.
+  induction l as [|a l IH]; intros m x H; simpl in H; [destruct m; discriminate|].
+  destruct (f a) eqn:Fa.
+  - destruct m as [|a' m'].
+    + simpl in H. injection H as Ha Hl. subst a. exists [], l. split; [reflexivity | exact Hl].
+    + simpl in H. injection H as Ha Hl. subst a'. destruct (IH m' x Hl) as [pre [post [E1 E2]]].
+      exists (a :: pre), post. split; [rewrite E1; reflexivity | exact E2].
+  - destruct (IH m x H) as [pre [post [E1 E2]]]. exists (a :: pre), post. split; [rewrite E1; reflexivity | exact E2].
+Qed.
+
+Lemma set_last_before_serialise_all defs :
+  forallb (fun v => set_last_before_serialise defs (val_fun v)) (all_vals (dedup (conds_of defs))) = true ->
+  forall cond, set_last_before_serialise defs cond = true.
+Proof.
+  intros H cond. rewrite forallb_forall in H.
+  specialize (H _ (val_of_in cond (dedup (conds_of defs)))).
+  unfold set_last_before_serialise, build_trace in *.
+  assert (E : trace 8 defs cond [([], entry_point)] =
+              trace 8 defs (val_fun (val_of cond (dedup (conds_of defs)))) [([], entry_point)]).
+  { apply trace_ext.
+    - intros c Hc. symmetry. apply val_of_fun. apply in_dedup. exact Hc.
+    - intros c Hc. destruct Hc. }
+  rewrite E. exact H.
+Qed.
+
+(* the steps after SetRepositories, up to the serialiser, are pure calls: they leave the file alone *)
+Lemma exec_pure_tail other c srcs : forall post (l : list string),
+  filter mutating post = [] -> (forall n, In n post -> in_list n serialisers = false) ->
+  (forall n, In n post -> n <> "bc.apk.SetRepositories") ->
+  exec (list string) (repos_sem_any other c srcs) post l = Ok l.
+Proof.
+  induction post as [|n post IH]; intros l F S NS; [reflexivity|]. rewrite exec_cons.
+  simpl in F. destruct (mutating n) eqn:M; [discriminate|].
+  unfold mutating in M. rewrite (S n (or_introl eq_refl)) in M. simpl in M. rewrite andb_true_r in M.
+  apply negb_false_iff in M. unfold repos_sem_any at 1.
+  destruct (String.eqb n "bc.apk.SetRepositories") eqn:E; [apply String.eqb_eq in E; exfalso; exact (NS n (or_introl eq_refl) E)|].
+  rewrite M. simpl. apply IH; [exact F | intros k Hk; apply S; right; exact Hk | intros k Hk; apply NS; right; exact Hk].
+Qed.
+
+Theorem final_repos_any_is_runtime defs srcs :
+  forallb (fun v => set_last_before_serialise defs (val_fun v)) (all_vals (dedup (conds_of defs))) = true ->
+  forall other cond c l, repo_set c srcs = Some l ->
+  forall st r, final_repos_any other defs srcs cond c st = Some (Ok r) -> r = l.
+Proof.
+  intros H other cond c l Hl st r. pose proof (set_last_before_serialise_all defs H cond) as B.
+  unfold final_repos_any, set_last_before_serialise in *.
+  destruct (split_at_serialiser (fst (build_trace defs cond))) as [[[before s] aft]|] eqn:ES; [|discriminate].
+  apply split_at_serialiser_spec in ES. destruct ES as [_ [_ NoSer]].
+  destruct (rev (filter mutating before)) as [|lastm rest] eqn:ER; [discriminate|].
+  apply String.eqb_eq in B. subst lastm.
+  assert (EF : filter mutating before = rev rest ++ ["bc.apk.SetRepositories"]).
+  { rewrite <- (rev_involutive (filter mutating before)), ER. reflexivity. }
+  destruct (filter_last_split mutating before _ _ EF) as [pre [post [EB FP]]]. subst before.
+  intros E. inversion E as [E1]. clear E. rewrite exec_app in E1.
+  destruct (exec (list string) (repos_sem_any other c srcs) pre st) as [s1| | |]; cbn [rbind] in E1; try discriminate.
+  rewrite exec_cons in E1. unfold repos_sem_any at 1 in E1. rewrite String.eqb_refl, Hl in E1. cbn [rbind] in E1.
+  rewrite exec_pure_tail in E1.
+  - inversion E1. reflexivity.
+  - exact FP.
+  - intros n Hn. apply NoSer. apply in_or_app. right. right. exact Hn.
+  - intros n Hn En. subst n.
+    assert (M : mutating "bc.apk.SetRepositories" = true) by reflexivity.
+    assert (Hin : In "bc.apk.SetRepositories" (filter mutating post)) by (apply filter_In; split; assumption).
+    rewrite FP in Hin. destruct Hin.
+Qed.
